@@ -57,15 +57,19 @@ def ctfFactorsValues (g : MG Name) (event : Event) : Except Err (List Event) := 
   if !(← isCtfFactorForm g (dedup' (event.map (·.1)))) then throw (.invalidInput "ValueError")
   groupByDistrict g (·.1.name) event
 
-/-- one step of `convert_to_counterfactual_factor_form`: keep the interventions on parents, add `-Pa` for every
-parent not intervened on, drop everything else (also the value mark); `Variable.intervene` turns a plain parent into
-`Intervention(name, star=False)` -/
-def convertOne (g : MG Name) (v : Var) : Except Err Var := do
-  let cand ← predecessors g v.name
+/-- the subscripts of `W_{pa_W}` built by `convert_to_counterfactual_factor_form`: the interventions of the variable on
+parents are kept, every parent not intervened on is added as `-Pa` (`Variable.intervene` turns a plain parent into
+`Intervention(name, star=False)`), everything else is dropped -/
+def convertIvs (cand : List Name) (v : Var) : List Iv :=
   let kept := if v.isCf then v.ivs.filter (fun i => decide (i.name ∈ cand)) else []
   let keptNames := kept.map (·.name)
   let added := (cand.filter (fun p => decide (p ∉ keptNames))).map (fun p => Iv.mk p false)
-  let ps := sortBy Iv.lt (dedup' (kept ++ added))
+  sortBy Iv.lt (dedup' (kept ++ added))
+
+/-- one step of `convert_to_counterfactual_factor_form` (the value mark is dropped: `variable.get_base()`) -/
+def convertOne (g : MG Name) (v : Var) : Except Err Var := do
+  let cand ← predecessors g v.name
+  let ps := convertIvs cand v
   pure (if ps.isEmpty then Var.plain v.name else { name := v.name, ivs := ps })
 
 /-- `convert_to_counterfactual_factor_form(event, graph)` -/
